@@ -426,6 +426,8 @@ def driver(seed, count):
                 meta = {'root': str(r)}
             else:       # not by construction: any outlay followed by larger returns
                 cs = [-cents(rng, 1, 100000)] + [cents(rng, 0, 60000) for _ in range(n - 1)]
+                if rng.random() < 0.4:      # the same in whole millions (a root is a root whatever the unit of the amounts)
+                    cs = [Fraction(-rng.randint(10 ** 6, 15 * 10 ** 8))] + [Fraction(rng.randint(0, 9 * 10 ** 8)) for _ in range(n - 1)]
                 if not in_domain_root(cs):
                     continue
             shape = row if rng.random() < 0.2 and n <= 20 else col
@@ -442,6 +444,8 @@ def driver(seed, count):
                 meta = {'root': str(r)}
             else:
                 cs = [-cents(rng, 1, 100000)] + [cents(rng, 0, 60000) for _ in range(n - 1)]
+                if rng.random() < 0.4:
+                    cs = [Fraction(-rng.randint(10 ** 6, 15 * 10 ** 8))] + [Fraction(rng.randint(0, 9 * 10 ** 8)) for _ in range(n - 1)]
                 if not in_domain_root(cs):
                     continue
             args = [col([N(c) for c in cs]), (row if rng.random() < 0.1 and n <= 20 else col)(dargs)]
